@@ -87,6 +87,12 @@ impl Instance {
                 .collect(),
         };
         let q = self.queries.clone();
+        // the verifier's types travel as JSON (wasm binding, CLI): an honest witness must survive the round trip
+        let w = match serde_json::to_value(&w).ok().and_then(|v| serde_json::from_value::<FriWitness>(v).ok()) {
+            Some(back) if back == w => back,
+            Some(_) => return Verdict::Err("SerdeRoundTripChangesTheWitness".into()),
+            None => return Verdict::Err("SerdeRoundTripFails".into()),
+        };
         verdict(move || fri_verify(&q, c, d, w))
     }
 }
@@ -444,6 +450,31 @@ pub fn run(ctx: &Ctx) -> Report {
         .collect();
     for p in parts {
         rep.merge(p);
+    }
+    // last layers of 2^9 .. 2^11 coefficients (quick) / up to 2^13 (thorough): more than any byte-sized counter holds
+    {
+        let big_last: Vec<(Vec<u32>, u32, u32)> = if quick { vec![(vec![0, 1], 9, 1), (vec![0, 2], 10, 1), (vec![0, 1], 11, 1)] } else { vec![(vec![0, 1], 9, 1), (vec![0, 2], 10, 1), (vec![0, 1], 11, 1), (vec![0, 1, 1], 12, 1), (vec![0, 1], 13, 1), (vec![0, 3], 8, 2)] };
+        for (steps, last, c) in big_last {
+            let params = Params { steps, last, blowup: c, n_friendly: 3 };
+            for poly in [1usize, 2] {
+                let s = Spec { params: params.clone(), poly, seed: 2 };
+                let (prover, bad) = commit_checked(ctx, variant, &s, 0);
+                if let Some(b) = bad {
+                    rep.violation("fri_commit:large-last-layer", &b, json!({"kind": "fri", "spec": spec_json(&s, variant), "queries": [0]}));
+                    continue;
+                }
+                for qs in query_sets(&s.params, 0, 0) {
+                    let inst = Instance::from(&prover, &prover.open(&qs));
+                    let v = inst.verify();
+                    rep.eval(&format!("honest-large-last-layer:{}", v.short()));
+                    rep.nontrivial_case(&format!("{}|{:?}", spec_json(&s, variant), qs));
+                    if !v.accepted() {
+                        rep.violation(&format!("fri_verify:honest-rejected:large-last-layer:{}", v.class()), &format!("{} queries={:?}", spec_json(&s, variant), qs),
+                            json!({"kind": "fri", "spec": spec_json(&s, variant), "queries": qs}));
+                    }
+                }
+            }
+        }
     }
     // extremes of the configuration grammar with a tiny polynomial (thorough)
     if !quick {
